@@ -60,6 +60,7 @@ TARGETS = [
 SELF_FIELDS = {
     "SHADE": {"_pop_size": "int64", "_H_size": "int64", "_H_F": "float64[:]", "_H_CR": "float64[:]"},
     "SHAGA": {"_pop_size": "int64", "_H_size": "int64", "_H_MR": "float64[:]", "_H_CR": "float64[:]", "_str_len": "int64"},
+    "SelfCGA": {"_K": "float64", "_iters": "int64"},
     "jDE": {"_pop_size": "int64", "_F": "float64[:]", "_CR": "float64[:]", "_t_F": "float64", "_t_CR": "float64", "_F_min": "float64", "_F_max": "float64"},
 }
 METHOD_TARGETS = [
@@ -74,13 +75,18 @@ METHOD_TARGETS = [
     ("optimizers/_shaga.py", "SHAGA", "_generate_MR_CR", "SHAGA_generate_MR_CR", "(float64[:], float64[:])()", {}),
     ("optimizers/_jde.py", "jDE", "_get_mutate_F", "jDE_get_mutate_F", "float64[:]()", {}),
     ("optimizers/_jde.py", "jDE", "_get_mutate_CR", "jDE_get_mutate_CR", "float64[:]()", {}),
+    # a str-keyed dict whose key set never changes is modelled by its value list in key order, a key by its position (DICT_PARAMS);
+    # the in-place update of the caller's dict is part of the result: the function returns (dict after the call, returned dict)
+    ("optimizers/_selfcga.py", "SelfCGA", "_get_new_proba", "SelfCGA_get_new_proba", "(float64[:], float64[:])(float64[:], int64, float64)", {}),
 ]
+DICT_PARAMS = {"SelfCGA_get_new_proba": ("proba_dict", "operator")}
+C14_METHODS = ["SelfCGA_get_new_proba"]
 # how a call site selects a specialisation: (callee, sorted names of the arguments given) -> output name
 CALL_SPECS = {
     ("lehmer_mean", ("x",)): "lehmer_mean_unweighted",
     ("lehmer_mean", ("weight", "x")): "lehmer_mean_weighted",
 }
-C15_METHODS = [t[3] for t in METHOD_TARGETS]
+C15_METHODS = [t[3] for t in METHOD_TARGETS if t[3] not in C14_METHODS]
 
 # functions without an @njit signature: parameter / return types written as the signature would be
 MANUAL_SIGS = {
@@ -558,6 +564,18 @@ class Translator:
             if t == L(Z):
                 return f"(pairs2 {c})", L(L(Z))
             raise Untranslatable(e, "reshape of " + str(t))
+        if isinstance(f, ast.Attribute) and f.attr == "clip" and len(e.args) == 2 and not e.keywords:
+            c, t = self._expr(fn, sc, f.value, pre)
+            lo, _ = self.expr(fn, sc, e.args[0], pre, Q)
+            hi, _ = self.expr(fn, sc, e.args[1], pre, Q)
+            if t == L(Q):
+                return f"(vclip {lo} {hi} {c})", L(Q)
+            raise Untranslatable(e, ".clip of " + str(t))
+        if isinstance(f, ast.Attribute) and f.attr == "sum" and not e.args and not e.keywords:
+            c, t = self._expr(fn, sc, f.value, pre)
+            if t == L(Q):
+                return f"(sumQ {c})", Q
+            raise Untranslatable(e, ".sum() of " + str(t))
         if isinstance(f, ast.Attribute) and f.attr in ("max", "min") and not e.args and not e.keywords:
             c, t = self._expr(fn, sc, f.value, pre)
             if t == L(Q):
@@ -700,6 +718,8 @@ class Translator:
             if isinstance(e.func, ast.Attribute) and e.func.attr in ("copy", "astype"):
                 return True
             if n in ("np.empty", "np.zeros", "np.empty_like", "np.arange", "np.cumsum", "sorted", "np.unique", "np.ones_like"):
+                return True
+            if isinstance(e.func, ast.Attribute) and e.func.attr == "clip":
                 return True
             if isinstance(e.func, ast.Name) and e.func.id in self.funcs:
                 return self.funcs[e.func.id]["returns_fresh"]
@@ -1317,10 +1337,38 @@ def specialise(node, cls, out_name, consts, method_fields):
                 return i
         return F().visit(n)
 
+    dict_param = DICT_PARAMS.get(out_name)
+
+    class DictRw(ast.NodeTransformer):
+        """dict -> value list in key order (see DICT_PARAMS)"""
+        def visit_Call(self_, n):
+            n = self_.generic_visit(n)
+            src = ast.unparse(n)
+            d = dict_param[0]
+            if src in (f"np.array(list({d}.values()))", f"np.array(list({d}.values()), dtype=np.float64)"):
+                return ast.copy_location(ast.parse(f"{d}.copy()").body[0].value, n)
+            if isinstance(n.func, ast.Name) and n.func.id == "dict" and len(n.args) == 1 and isinstance(n.args[0], ast.Call) \
+                    and ast.unparse(n.args[0].func) == "zip" and len(n.args[0].args) == 2 and ast.unparse(n.args[0].args[0]) == f"{d}.keys()":
+                return n.args[0].args[1]          # dict(zip(d.keys(), values)): the same keys in the same order
+            return n
+
+        def visit_Return(self_, n):
+            n = self_.generic_visit(n)
+            return ast.copy_location(ast.Return(value=ast.Tuple(elts=[ast.Name(id=dict_param[0], ctx=ast.Load()), n.value], ctx=ast.Load())), n)
+
     body = []
+    if dict_param is not None:
+        body.append(ast.parse(f"{dict_param[0]} = {dict_param[0]}.copy()").body[0])
     for st in node.body:
         r = fold(Rw().visit(st))
-        body.extend(r if isinstance(r, list) else [r])
+        for r1 in (r if isinstance(r, list) else [r]):
+            if dict_param is not None:
+                r1 = DictRw().visit(r1)
+                leftover = [x for x in ast.walk(r1) if isinstance(x, ast.Attribute) and isinstance(x.value, ast.Name) and x.value.id == dict_param[0]
+                            and x.attr in ("keys", "values", "items", "get", "pop", "update", "setdefault")]
+                if leftover:
+                    raise Untranslatable(r1, f"use of the dict '{dict_param[0]}' outside the modelled forms")
+            body.append(r1)
     new_params = ["self" + f_ for f_ in used_fields] + kept
     fd = ast.FunctionDef(name=out_name, args=ast.arguments(posonlyargs=[], args=[ast.arg(arg=p) for p in new_params], kwonlyargs=[], kw_defaults=[], defaults=[]),
                          body=body, decorator_list=[], lineno=node.lineno, col_offset=0)
